@@ -48,7 +48,7 @@ def gen_cases(tier, seed):
         N = int(rng.integers(2, 4))
         shape = [int(s) for s in rng.integers(2, 5, size=N)]
         fill = ["nearly-empty", "some", "half", "nearly-full", "full"][i % 5]
-        for kind in ("uniform-dense", "uniform-sparse", "stratified", "semistrat"):
+        for kind in ("uniform-dense", "uniform-sparse", "stratified", "semistrat", "uniform-fn+stratified", "uniform-fn+semistrat"):
             yield C(w="sampler", shape=shape, fill=fill, kind=kind, nfun=int(rng.choice([1, 3, 10, 40])), ngrad=int(rng.choice([1, 2, 7, 30])),
                     stratcount=bool(rng.integers(0, 2)))
     nsol = 40 if tier == "quick" else 400
@@ -167,6 +167,11 @@ def _w_sampler(case, ctx, rng):
             fa = SAM.StratifiedCount(nf, max(0, nf - 1)) if case["stratcount"] else nf
             ga = SAM.StratifiedCount(ng, ng + 2) if case["stratcount"] else ng
             mk = lambda: SAM.GCPSampler(data, SAM.Samplers.STRATIFIED, fa, SAM.Samplers.STRATIFIED, ga)  # noqa: E731
+        elif kind in ("uniform-fn+stratified", "uniform-fn+semistrat"):
+            # the two samplers are chosen independently: a uniform function sampler beside a (semi-)stratified gradient sampler
+            gk = SAM.Samplers.STRATIFIED if kind.endswith("+stratified") else SAM.Samplers.SEMISTRATIFIED
+            ga = SAM.StratifiedCount(ng, ng + 2) if (case["stratcount"] and kind.endswith("+stratified")) else ng
+            mk = lambda: SAM.GCPSampler(data, SAM.Samplers.UNIFORM, nf, gk, ga)  # noqa: E731
         else:
             mk = lambda: SAM.GCPSampler(data, SAM.Samplers.STRATIFIED, nf, SAM.Samplers.SEMISTRATIFIED, ng)  # noqa: E731
     r = ctx.call("GCPSampler", mk)
@@ -188,6 +193,12 @@ def _w_sampler(case, ctx, rng):
             elif kind == "stratified":
                 cnt = (fa if which == "function_sample" else ga)
                 strat = (cnt.num_nonzeros, cnt.num_zeros) if case["stratcount"] else (n_, n_)
+            elif kind in ("uniform-fn+stratified", "uniform-fn+semistrat"):
+                if which == "function_sample":
+                    k2 = "uniform-dense"
+                else:
+                    k2 = "stratified" if kind.endswith("+stratified") else "semistrat"
+                    strat = (ga.num_nonzeros, ga.num_zeros) if isinstance(ga, SAM.StratifiedCount) else (ng, ng)
             elif kind == "semistrat":
                 if which == "function_sample":
                     k2, strat = "stratified", (nf, nf)
@@ -497,9 +508,28 @@ def _w_reuse(case, ctx, rng):
         r0 = ctx.call(case["solver"] + ".solve", shared.solve, M00.copy(), X0, fh_bad, gh, lb)
         ctx.tag("first-solve-raised" if not r0.ok else "first-solve-survived")
         ctx.feat(failed_first=True)
+    kept = []
+
+    def _snap(info):
+        return {k_: (np.array(v_, copy=True) if isinstance(v_, np.ndarray) else v_) for k_, v_ in info.items()} if isinstance(info, dict) else None
+
+    def _later_changed():
+        # what an earlier solve reported (its traces) and returned is its own: a later solve on the same object must not rewrite it
+        for j, (info_, snap_, model_, msnap_) in enumerate(kept):
+            same_ = all((np.array_equal(info_[k_], v_, equal_nan=True) if isinstance(v_, np.ndarray) else True) for k_, v_ in snap_.items())
+            ctx.check(same_, case["solver"] + ".solve", "EARLIER-REPORT-REWRITTEN",
+                      lambda: f"the report of solve #{j + 1} (" + ", ".join(k_ for k_, v_ in snap_.items() if isinstance(v_, np.ndarray) and not np.array_equal(info_[k_], v_, equal_nan=True))
+                      + ") changed when the same optimizer object ran a later solve", solve_index=min(j, 2))
+            ctx.check(bool(np.array_equal(denote(model_), msnap_)), case["solver"] + ".solve", "EARLIER-RESULT-REWRITTEN",
+                      f"the model returned by solve #{j + 1} changed when the same optimizer object ran a later solve", solve_index=min(j, 2))
+
     for i, (X, M0) in enumerate(probs):
         np.random.seed(case["gseed"] + i)
         r1 = ctx.call(case["solver"] + ".solve", shared.solve, M0.copy(), X, fh, gh, lb)
+        if r1.ok:
+            _later_changed()
+            if isinstance(r1.value, tuple) and len(r1.value) >= 2 and isinstance(r1.value[1], dict):
+                kept.append((r1.value[1], _snap(r1.value[1]), r1.value[0], denote(r1.value[0]).copy()))
         np.random.seed(case["gseed"] + i)
         r2 = ctx.call(case["solver"] + ".solve", mk().solve, M0.copy(), X, fh, gh, lb)
         if r1.ok != r2.ok:
@@ -515,3 +545,4 @@ def _w_reuse(case, ctx, rng):
         ctx.check(a.shape == b.shape and bool(np.array_equal(a, b)), case["solver"] + ".solve", "REUSE-DIFFERS",
                   lambda: f"solve #{i + 1} on a reused optimizer object differs from the same solve on a fresh object: max diff {np.max(np.abs(a - b))!r}",
                   solve_index=min(i, 2))
+    _later_changed()
